@@ -100,7 +100,7 @@ def show_num(n) -> str:
     k = n[0]
     if k in ("LB", "UB", "VAL", "KV", "KNV"):
         return f"{k}({show_coll(n[1])})"
-    if k in ("ADD", "SUB", "MIN2"):
+    if k in ("ADD", "SUB", "MIN2", "MAX2"):
         return f"{k}({show_num(n[1])}, {show_num(n[2])})"
     if k in ("MAX", "MIN"):
         return f"{k}({show_num(n[1])})"
@@ -592,7 +592,7 @@ class Interp:
             if len(t[2]) == 2 and not t[2][0][0] == "star":
                 if op == "MIN":
                     return ("MIN2", self.num(t[2][0], c), self.num(t[2][1], c))
-                return ("?", "two-argument max")
+                return ("MAX2", self.num(t[2][0], c), self.num(t[2][1], c))
         if t[0] == "call" and t[1][0] == "attr" and t[1][2] in ("max", "min") and not t[2]:
             return ("MAX" if t[1][2] == "max" else "MIN", self.num(t[1][1], c))
         if t[0] == "call" and is_global(t[1], "float", "numpy.float64") and len(t[2]) == 1:
@@ -607,7 +607,7 @@ class Interp:
             return self._col(col[name], cc)
         if t[0] == "index" and t[1][0] == "call" and t[1][1][0] == "attr" and t[1][1][1] == self.game \
                 and t[1][1][2] in ("get_lower_bounds", "get_upper_bounds", "get_values", "get_known_values") and not t[1][2]:
-            cc = self.coll(t[2], c)
+            cc = self.coll(t[2], c) if not (c is not None and self.is_c(t[2], c)) else Single("SELF")
             return self._col(col[t[1][1][2]], cc)
         self.unrecognised.append(f"value {show(t)[:100]}")
         return ("?", show(t)[:80])
@@ -714,7 +714,7 @@ def normalise_num(n):
         if isinstance(cc, Coll) and cc.known is True:
             return ("KV", cc)
         return n
-    if k in ("ADD", "SUB", "MIN2"):
+    if k in ("ADD", "SUB", "MIN2", "MAX2"):
         a, b = normalise_num(n[1]), normalise_num(n[2])
         if k == "ADD" and repr(b) < repr(a):
             a, b = b, a
@@ -758,7 +758,7 @@ def split_phi(n, want: bool | None = None):
             return out
         if k in ("LB", "UB", "VAL", "KV", "KNV"):
             return [(cd, (k, cc)) for cd, cc in rec_coll(x[1])]
-        if k in ("ADD", "SUB", "MIN2"):
+        if k in ("ADD", "SUB", "MIN2", "MAX2"):
             out = []
             for c1, a in rec(x[1]):
                 for c2, b in rec(x[2]):
